@@ -11,8 +11,9 @@ Theorem C17_is_prime : forall n, is_prime n = true <-> prime n.
 Proof. exact is_prime_correct. Qed.
 Print Assumptions C17_is_prime.
 
-(* prime factors with multiplicity: product n, all prime, ascending (n = 0 excluded:
-   0 has no factorisation) *)
+(* prime factors with multiplicity: product n, all prime (n = 0 excluded: 0 has no
+   factorisation).  The model's list is ascending -- a fact about the model only: a
+   factorisation is a multiset, the implementation's list is compared after sorting *)
 Theorem C17_prime_factors : forall n, 1 <= n ->
   prod (prime_factors n) = n /\ Forall prime (prime_factors n) /\
   StronglySorted Z.le (prime_factors n).
